@@ -137,6 +137,23 @@ CLAIMED = {
         note="minidom/ElementTree modelled as lists; hand models pinned by AST hash.",
         technique="Coq proof (structural induction over trees, fuelled traversal with continuation lemma) + "
                   "differential correspondence on API-built and parsed trees"),
+    "C04": dict(
+        category="translation_validation",
+        text="The two back ends are modelled as stores driven by the parser's node primitives (E: ElementTree "
+             ".text/.tail + real child list + the wrapper's shadow list; D: minidom children incl. text nodes) and "
+             "each model is validated against the real wrapper classes on thousands of operation sequences per run "
+             "(outcomes incl. ValueError/TypeError, abstract forest, parent pointers, shadow-list invariant: exact "
+             "agreement). The deciding evidence for builder independence is this validation plus the document-level "
+             "differential run etree / etree-fullTree / dom x namespaceHTMLElements on templates (formatting > block > "
+             "table > misnested content) and table/formatting soup. Proved in Coq (all operation sequences): the "
+             "ElementTree wrapper's _childNodes always equals the element's real child list -- the invariant whose "
+             "violation was the known divergence (fixed in /repo; the old code is refuted by a witness). The "
+             "refinement theorem absE(runE ops) = absD(runD ops) is not proved in this round.",
+        design_ref="DESIGN.md 3 C04, A.5",
+        note="ElementTree/minidom modelled as lists; op sequences follow the parser's preconditions (no aliasing of "
+             "an attached ElementTree node).",
+        technique="executable Coq models of both back ends validated differentially against the real wrappers + "
+                  "document-level differential; Coq invariant proof (induction over operation sequences)"),
 }
 
 PENDING_REASON = "not yet built in this round (planned: Coq model + theorems per DESIGN.md section 3); no check is registered, so nothing is claimed"
